@@ -21,29 +21,32 @@ type r1 struct {
 	A    int64  `config:"alpha"`
 	B    uint32 `config:"b.c"`
 	C    string
-	D    bool                `config:"d"`
-	E    float64             `config:"e"`
-	F    float32             `config:"f"`
-	Ign  int                 `config:",ignore"`
-	In   r1in                `config:",inline"`
-	N    r1in                `config:"nested"`
-	P    *r1in               `config:"p"`
-	L    []int16             `config:"l"`
-	Arr  [2]uint8            `config:"arr"`
-	AP   [2]*r1in            `config:"ap"`
-	M    map[string]int32    `config:"m"`
-	MS   map[string]r1in     `config:"ms"`
-	LS   []r1in              `config:"ls"`
-	U    uint64              `config:"u"`
-	I8   int8                `config:"i8"`
-	Dur  time.Duration       `config:"dur"`
-	Re   *regexp.Regexp      `config:"re"`
-	PP   **int               `config:"pp"`
-	LL   [][]uint8           `config:"ll"`
-	LP   []*[]int16          `config:"lp"`
-	MP   map[string]*[]int16 `config:"mp"`
-	LM   []*map[string]int32 `config:"lm"`
-	PM   *map[string]int32   `config:"pm"`
+	D    bool                     `config:"d"`
+	E    float64                  `config:"e"`
+	F    float32                  `config:"f"`
+	Ign  int                      `config:",ignore"`
+	In   r1in                     `config:",inline"`
+	N    r1in                     `config:"nested"`
+	P    *r1in                    `config:"p"`
+	L    []int16                  `config:"l"`
+	Arr  [2]uint8                 `config:"arr"`
+	AP   [2]*r1in                 `config:"ap"`
+	M    map[string]int32         `config:"m"`
+	MS   map[string]r1in          `config:"ms"`
+	LS   []r1in                   `config:"ls"`
+	U    uint64                   `config:"u"`
+	I8   int8                     `config:"i8"`
+	Dur  time.Duration            `config:"dur"`
+	Re   *regexp.Regexp           `config:"re"`
+	PP   **int                    `config:"pp"`
+	LL   [][]uint8                `config:"ll"`
+	LP   []*[]int16               `config:"lp"`
+	MP   map[string]*[]int16      `config:"mp"`
+	LM   []*map[string]int32      `config:"lm"`
+	PM   *map[string]int32        `config:"pm"`
+	DL   []time.Duration          `config:"dl"`
+	DA   [2]time.Duration         `config:"da"`
+	DM   map[string]time.Duration `config:"dm"`
 	priv int
 }
 
@@ -101,6 +104,10 @@ func H_C06_roundtrip() {
 	case 0:
 	case 9:
 		v.Dur = c06Durations[verif.Choice("dur", len(c06Durations))]
+		// durations as elements of slices, arrays and maps
+		v.DL = []time.Duration{v.Dur, 250 * time.Millisecond}
+		v.DA = [2]time.Duration{time.Nanosecond, v.Dur}
+		v.DM = map[string]time.Duration{"k": v.Dur}
 	case 10:
 		v.Re = regexp.MustCompile(c06Regexps[verif.Choice("re", len(c06Regexps))])
 	case 11:
@@ -167,6 +174,15 @@ func H_C06_roundtrip() {
 	verif.Assert(verif.And(z.U == v.U, z.I8 == v.I8), "C06/extreme numbers")
 	verif.Assert(verif.And(z.Arr[0] == v.Arr[0], z.Arr[1] == v.Arr[1]), "C06/array")
 	verif.Assert(z.Dur == v.Dur, "C06/duration")
+	verif.Assert(len(z.DL) == len(v.DL) && z.DA == v.DA && len(z.DM) == len(v.DM), "C06/durations in collections: sizes and array")
+	for i := range v.DL {
+		if i < len(z.DL) {
+			verif.Assert(z.DL[i] == v.DL[i], "C06/duration as slice element")
+		}
+	}
+	for k, e := range v.DM {
+		verif.Assert(z.DM[k] == e, "C06/duration as map value")
+	}
 	verif.Assert(z.Re != nil && z.Re.String() == v.Re.String(), "C06/regular expression")
 	if v.P != nil {
 		verif.Assert(z.P != nil && eqIn(*z.P, *v.P), "C06/pointer to struct")
